@@ -17,6 +17,7 @@ import (
 	"strconv"
 	"strings"
 	"sync"
+	"sync/atomic"
 	"time"
 
 	"github.com/smart-core-os/sc-api/go/types"
@@ -370,9 +371,14 @@ func (o *Outcome) finish(w *world, sc Scenario, cancel context.CancelFunc) {
 		if c == nil {
 			continue
 		}
+		wait := 5 * time.Second
+		if sentinelFailures.Load() >= 3 { // already established: do not spend the budget waiting again
+			wait = 20 * time.Millisecond
+		}
 		select {
 		case <-c.sentinel:
-		case <-time.After(5 * time.Second):
+		case <-time.After(wait):
+			sentinelFailures.Add(1)
 			o.NoSentinel = append(o.NoSentinel, i)
 		}
 	}
@@ -386,6 +392,8 @@ func (o *Outcome) finish(w *world, sc Scenario, cancel context.CancelFunc) {
 		}
 	}
 }
+
+var sentinelFailures atomic.Int64
 
 type chooser func(enabled []string, sofar []string) string
 
